@@ -246,8 +246,12 @@ func c09TagScenario(n int, dotu bool, P int) Scenario {
 }
 
 // many sequential calls over one connection: tags and request slots are recycled
-func c09RecycleScenario(n int, poolForgets bool) Scenario {
+func c09RecycleScenario(n int, poolForgets bool, kind string) Scenario {
 	name := fmt.Sprintf("recycle %d sequential calls", n)
+	if kind != "ok" {
+		// calls that fail recycle their tag and slot like the others
+		name += " all answered with " + kind
+	}
 	if poolForgets {
 		// sync.Pool may drop idle items at any time: the client must not lose tags or slots with them
 		name += " (every sync.Pool forgets what is put back)"
@@ -261,11 +265,22 @@ func c09RecycleScenario(n int, poolForgets bool) Scenario {
 			vsync.PoolForgets = poolForgets
 			defer func() { vsync.PoolForgets = false }()
 			c, peer := newClientPair(8192, true)
+			if kind != "ok" {
+				peer.DefaultKind = kind
+			}
+			tagOf := func(fid uint32) uint16 {
+				for i := len(peer.Seen) - 1; i >= 0; i-- {
+					if peer.Seen[i].Fid == fid {
+						return peer.Seen[i].Tag
+					}
+				}
+				return 0
+			}
 			for i := 0; i < n; i++ {
 				done = i
 				sp := callSpec{Kind: []string{"read", "stat", "write", "walk", "clunk"}[i%5], Fid: uint32(i % 50000)}
 				r := doCall(c, sp)
-				if msg := r.verify("ok", true, nil); msg != "" {
+				if msg := r.verify(kind, true, tagOf); msg != "" {
 					bad = fmt.Sprintf("call %d (%s fid %d): %s", i, sp.Kind, sp.Fid, msg)
 					return
 				}
@@ -395,7 +410,7 @@ func c09Scenarios(tier string) []Scenario {
 	if tier == "thorough" {
 		n = 70000
 	}
-	out = append(out, c09RecycleScenario(n, false), c09RecycleScenario(n, true))
+	out = append(out, c09RecycleScenario(n, false, "ok"), c09RecycleScenario(n, true, "ok"), c09RecycleScenario(n, false, "error"), c09RecycleScenario(n, false, "wrongtype"))
 	out = append(out, c09HeldScenario(64, 60, false), c09HeldScenario(128, 80, true), c09HeldScenario(8192, 2200, true))
 	return out
 }
